@@ -74,7 +74,7 @@ def fill(claim, na):
     )
     claim(
         "C01", "other",
-        "exhaustive interpretation of Series._impedance/Parallel._impedance over the zero/infinite/tiny/generic pattern domain with kind-typed child stubs (a 1-D numpy stand-in); finite abstract interpretation of the index sets in _calculate_impedances; fold summaries of the symbolic combinators; dominance rules",
+        "exhaustive interpretation (checker-owned interpreter on the AST) of Series._impedance/Parallel._impedance over the zero/infinite/tiny/generic pattern domain with kind-typed child stubs and edit-then-evaluate histories, and of _calculate_impedances over object kinds x frequency vectors of 0/finite/tiny/inf/negative entries; fold summaries of the symbolic combinators; dominance rules",
         "Decides the STRUCTURE of composition: numeric and symbolic Series/Parallel combinators are the folds Σ Z_k and "
         "1/Σ(1/Z_k) over every child with zero start and no conditional contribution; the open/short path table of "
         "Parallel._impedance (guards classified by semantic recognisers); subclass-before-superclass dispatch with the right "
@@ -155,7 +155,7 @@ def fill(claim, na):
     )
     claim(
         "C12", "other",
-        "provenance of the lmfit parameter keywords, CFG must-pass-through for the final write-back, mutation summaries, sort-key inspection",
+        "interpretation of _to_lmfit/_from_lmfit with stand-ins for lmfit.Parameters and elements; CFG must-pass-through for the final write-back, mutation summaries, sort-key inspection",
         "Partial: decides the wiring of the invariants, not recovery of generating parameters. _to_lmfit passes "
         "value/min/max/vary/expr taken from the element's own getters and refuses values outside their limits; "
         "_fit_process fits a deep copy, generates identifiers from it, and every path to its success return passes the "
@@ -181,7 +181,7 @@ def fill(claim, na):
     )
     claim(
         "C07", "translation_validation",
-        "term extraction of design-matrix columns and of the variable→parameter map, symbolic identity against the model circuit built from the registered element equations",
+        "design-matrix column terms read back from an interpretation of each column builder on a matrix stand-in, term extraction of the variable→parameter map, symbolic identity against the model circuit built from the registered element equations",
         "For 36 configurations (2 linear implementations × 3 tests × {Z,Y} × capacitance × inductance where applicable) the "
         "columns stored by the matrix builders and the map applied by _update_circuit are extracted from the source and it "
         "is proved with sympy that block(X_model(ω; g(x))) ≡ Σ_j x_j·col_j(ω) for the circuit _generate_circuit builds: the "
@@ -231,7 +231,7 @@ def fill(claim, na):
     )
     claim(
         "C19", "other",
-        "call-site wiring analysis over the resolved CLI modules: option-to-parameter forwarding against argparse dests and API signatures, def-use provenance of reported values, must-pass-through emission on the statement CFG, dispatch-table agreement",
+        "call-site wiring analysis over the resolved CLI modules: option-to-parameter forwarding against argparse dests and API signatures, def-use provenance of reported values, must-pass-through emission on the statement CFG, dispatch-table agreement, parse_circuits interpreted",
         "Decides the wiring that makes the CLI report what the API computes: every keyword at a CLI->API call site (fit_circuit, "
         "calculate_drt, perform_zhit, evaluate_log_F_ext, simulate_spectrum) takes the option of the same name, defined for that "
         "sub-command and accepted by the API; no same-named option is dropped; sibling call sites agree; the data handed over is "
@@ -245,7 +245,7 @@ def fill(claim, na):
     )
     claim(
         "C06", "other",
-        "table-agreement analysis: the alias table of _detect_columns is extracted and its first-match-by-prefix semantics evaluated over every alias, documented header and header the library itself writes; def-use rules over _extract_data/_split_sweeps; constant-index bound rule; per-layout column/sign table; dispatch-table agreement",
+        "interpretation (checker-owned interpreter on the AST) of _detect_columns on 312 header rows, of _extract_data on 192 small tables and of _split_sweeps on every ordering of up to 6 points; constant-index bound rule; per-layout column/sign table; dispatch-table agreement",
         "Decides the repository's own part of the file round trip: no alias is shadowed by an earlier quantity's alternative, every "
         "documented alias is in the table, the headers written by to_dataframe (hence the CLI parse table) and by the instrument "
         "parsers are read back as the quantity they hold with no sign marker; each quantity is read from its own column, gets the "
